@@ -3,6 +3,7 @@ C06 — (a) non-interference for SETS of groups, (b) an invariant principle for 
 isolated stages into isolated pipelines, (d) transparency of the InfluxQL batch-side receiver in the createFn cache.
 -/
 import Kap.Proofs.C06Iql
+import Kap.Proofs.C06
 namespace Kap.C06
 
 variable {Γ σ π ο : Type}
@@ -346,6 +347,26 @@ theorem windowTime_bid (c : Kap.C03.TCfg) (r : GroupID → GroupID) (items : Lis
       obtain ⟨a, _, rfl⟩ := ho
       exact hj
     | _ => exact ⟨hj, fun o ho => by cases ho⟩
+
+/-! ### the two spellings of a group: stream edge (dimension list as configured) and batch edge (duplicates dropped) -/
+
+/-- the point as the batch edge behind a window groups it: `NewBeginBatchMessage` takes the sorted tag KEYS of the
+group, so a dimension listed twice appears once -/
+def onBatchEdgeDims (p : GPoint) : GPoint := { p with dims := p.dims.eraseDups }
+
+theorem cleanPoint_onBatchEdge {p : GPoint} (h : cleanPoint p = true) : cleanPoint (onBatchEdgeDims p) = true := by
+  unfold cleanPoint at *
+  simp only [Bool.and_eq_true, List.all_eq_true] at *
+  exact ⟨h.1, fun d hd => h.2 d (List.mem_eraseDups.mp hd)⟩
+
+theorem sameGroup_onBatchEdge (p q : GPoint) (hd : p.dims = q.dims) :
+    sameGroup (onBatchEdgeDims p) (onBatchEdgeDims q) = sameGroup p q := by
+  rw [Bool.eq_iff_iff, sameGroup_iff, sameGroup_iff]
+  constructor
+  · rintro ⟨h1, _, h3, h4⟩
+    exact ⟨h1, hd, h3, fun d hd' => h4 d (List.mem_eraseDups.mpr hd')⟩
+  · rintro ⟨h1, h2, h3, h4⟩
+    exact ⟨h1, by simp only [onBatchEdgeDims, h2], h3, fun d hd' => h4 d (List.mem_eraseDups.mp hd')⟩
 
 /-! ### (c) composition -/
 
